@@ -33,26 +33,6 @@ structure DialectLe (d1 d2 : Dialect) : Prop where
   op : ∀ (o args : Val) (m : Nat) (ext : OperatorSet) (c : Ctr) (r : Nat × Val × Ctr),
     d1.op o args m ext c = some (.ok r) → d2.op o args m ext c = some (.ok r)
 
-theorem evalOpAtom_kw {d1 d2 : Dialect} (hq : d1.quoteKw = d2.quoteKw) (hg : d1.gcCandidate = d2.gcCandidate)
-    (s : MState) (o ol env : Val) : evalOpAtom d1 s o ol env = evalOpAtom d2 s o ol env := by
-  unfold evalOpAtom; rw [hq, hg]
-
-/-- `eval_pair` reads the dialect only through `quote_kw` and `gc_candidate` -/
-theorem evalPair_kw {cfg : Cfg} {d1 d2 : Dialect} (hq : d1.quoteKw = d2.quoteKw)
-    (hg : d1.gcCandidate = d2.gcCandidate) (s : MState) (p env : Val) :
-    evalPair cfg d1 s p env = evalPair cfg d2 s p env := by
-  cases p with
-  | atom b i => rfl
-  | pair o ol =>
-    cases o with
-    | atom ob oi => simp only [evalPair]; exact evalOpAtom_kw hq hg s _ _ _
-    | pair a b => rfl
-
-theorem swapEvalOp_kw {cfg : Cfg} {d1 d2 : Dialect} (hq : d1.quoteKw = d2.quoteKw)
-    (hg : d1.gcCandidate = d2.gcCandidate) (s : MState) : swapEvalOp cfg d1 s = swapEvalOp cfg d2 s := by
-  unfold swapEvalOp
-  simp only [evalPair_kw hq hg]
-
 theorem applyBody_le {cfg : Cfg} {d1 d2 : Dialect} (hd : DialectLe d1 d2) {s s' : MState} {ol o : Val}
     {cc mc c : Nat} (h : applyBody cfg d1 s ol o cc mc = .ok (c, s')) :
     applyBody cfg d2 s ol o cc mc = .ok (c, s') := by
